@@ -46,6 +46,35 @@ def base_kwargs(case):
     return kw, triples
 
 
+LINE_CHANNELS = ["raw", "raw", "file", "tsv", "turtle_iter"]     # readers that keep the document order
+
+
+def deliver(kw, doc, chan, tmpdir):
+    """replace the raw N-Triples document in kw by the same statements delivered through another channel"""
+    from .rdfmodel import to_tsv, to_simple_turtle, to_rdflib
+    import os
+    kw = dict(kw)
+    if chan == "raw":
+        return kw
+    kw.pop("raw_graph", None)
+    if chan == "file":
+        path = os.path.join(tmpdir, "doc.nt")
+        with open(path, "w", encoding="utf-8") as f:
+            f.write(to_nt(doc))
+        kw["graph_file_input"] = path
+    elif chan == "tsv":
+        kw["raw_graph"] = to_tsv(doc)
+        kw["input_format"] = "tsv_spo"
+    elif chan == "turtle_iter":
+        kw["raw_graph"] = to_simple_turtle(doc, {"ex": "http://ex.org/"})
+        kw["input_format"] = "turtle_iter"
+    elif chan == "rdflib":
+        kw["rdflib_graph"] = to_rdflib(doc)
+    else:
+        raise ValueError(chan)
+    return kw
+
+
 def selection(case, triples, cap=None):
     g = case["g"]
     tgt = case.get("target", {"mode": "all"})
